@@ -853,4 +853,35 @@ pub mod vhook {
         wks.batch_inversion(&s, ds);
         wks.dinv_modp[..k].iter().map(|b| b.to_vec()).collect()
     }
+    /// Same for a sequence of chunks of D values processed with ONE workspace, as `process_poly_block`
+    /// does (the workspace is reused across the chunks of 16 polynomials of a block).
+    pub fn batch_dinv_seq(n: &Uint, fbase: &FBase, chunks: Vec<Vec<u128>>) -> Vec<Vec<Vec<u32>>> {
+        let inverters: Vec<_> = (0..fbase.len())
+            .map(|idx| arith::Inverter::new(fbase.p(idx)))
+            .collect();
+        let prefs = Preferences::default();
+        let rels = RwLock::new(RelationSet::new(*n, fbase.len(), 0));
+        let s = SieveMPQS {
+            n: *n,
+            fbase,
+            inverters: &inverters,
+            maxlarge: 0,
+            use_double: false,
+            interval_size: 0,
+            d_target: 0,
+            rels: &rels,
+            prefs: &prefs,
+            polys_done: AtomicUsize::new(0),
+            target: AtomicUsize::new(0),
+            done: AtomicBool::new(false),
+        };
+        let mut wks = Workspace::default();
+        let mut res = vec![];
+        for ds in chunks {
+            let k = ds.len();
+            wks.batch_inversion(&s, ds);
+            res.push(wks.dinv_modp[..k].iter().map(|b| b.to_vec()).collect());
+        }
+        res
+    }
 }
